@@ -157,41 +157,33 @@ def show(b, n=80):
     return s + ("…" if len(b) > n else "")
 
 
+class Job:
+    """A batch of cases with (optionally) a correspondence function and (optionally) an oracle mode."""
+    def __init__(self, name, cases, corr=None, judge_mode=None, nontrivial=None, mutate=None):
+        self.name, self.cases, self.corr, self.judge_mode = name, cases, corr, judge_mode
+        self.nontrivial = nontrivial or (lambda c: len(c[0]) > 0)
+        self.mutate = mutate or (lambda rng, c: (gen.mutate(rng, c[0]), c[1]))
+
+
 class Check:
-    """One property check.  Subclass or instantiate with:
-       obligations: [(family, module, theorem)]
-       cases(seed, tier) -> list of (bytes, param)
-       correspond(cases) -> list of (index, impl_obs, model_obs, what) for differences
-       judge_mode: harness mode of the oracle (default judge:<id>); extra_judge_cases(seed,tier)
-    """
+    """One property check: obligations [(family, module, theorem)] and jobs(seed, tier) -> [Job]."""
     level = "proof"
     assumptions = []
-    corr_name = "model/implementation correspondence"
+    obligations = []
+    rule = "generated cases; distinct by (bytes, parameter); non-trivial = non-empty input"
 
     def __init__(self, prop):
         self.prop = prop
 
-    obligations = []
-
-    def cases(self, seed, tier):
+    def jobs(self, seed, tier):
         return []
 
-    def correspond(self, cases):
-        return []
-
-    def judge_cases(self, cases, seed, tier):
-        return cases
-
-    judge_mode = None
-
-    def nontrivial(self, case):
-        return len(case[0]) > 0
-
-    def neighbourhood(self, rng, inp):
-        return gen.mutate(rng, inp)
-
-    def extra_coverage(self):
+    def extra_coverage(self, st):
         return {}
+
+    def extra_violations(self, st, tier, seed):
+        """hook for checks with additional machinery (race runs, effect summary); returns list of (what, detail)"""
+        return []
 
     # ------------------------------------------------------------------
     def main(self, tier, seed, replay=None):
@@ -210,24 +202,28 @@ class Check:
         res, alog = audit(prop, self.obligations, st)
         n_obl = len(self.obligations)
         broken_obl = [k for k, v in res.items() if not v]
-        tie_broken = [e for e in st.get("errors", [])]
-        # 2. correspondence
-        cases = self.cases(seed, tier)
-        diffs = []
         model_ok = st.get("driver") == 0
-        if model_ok:
-            diffs = self.correspond(cases)
-        # 3. judge the implementation
-        jcases = self.judge_cases(cases, seed, tier)
-        fails = judge(prop, jcases, self.judge_mode) if jcases else []
-        violations = []
+        jobs = self.jobs(seed, tier)
+        # 2. correspondence, 3. judge
+        diffs = []          # (job, index, impl, model, what)
+        violations = []     # (job, case, sig)
         known_hits = {}
-        for i, sig in fails:
-            k = match_known(prop, jcases[i][0], sig, known)
-            if k:
-                known_hits.setdefault(k["id"], (k, jcases[i], sig))
-            else:
-                violations.append((jcases[i], sig))
+        n_cases = n_judged = n_fail = 0
+        for job in jobs:
+            n_cases += len(job.cases)
+            if job.corr and model_ok:
+                for d in job.corr(job.cases):
+                    diffs.append((job,) + tuple(d))
+            if job.judge_mode and job.cases:
+                n_judged += len(job.cases)
+                for i, sig in judge(prop, job.cases, job.judge_mode):
+                    n_fail += 1
+                    k = match_known(prop, job.cases[i][0], sig, known)
+                    if k:
+                        known_hits.setdefault(k["id"], (k, job.cases[i], sig))
+                    else:
+                        violations.append((job, job.cases[i], sig))
+        extra = self.extra_violations(st, tier, seed)
         # 4. search when something no longer checks
         searched = 0
         broken = []
@@ -236,73 +232,101 @@ class Check:
         if not model_ok:
             broken.append("model/driver does not build: " + "; ".join(st.get("errors", []))[:500])
         if diffs:
-            broken.append("%s: %d differing case(s)" % (self.corr_name, len(diffs)))
+            byjob = {}
+            for d in diffs:
+                byjob[d[0].name] = byjob.get(d[0].name, 0) + 1
+            broken.append("correspondence differs: " + ", ".join("%s: %d case(s)" % kv for kv in byjob.items()))
+        for what, detail in extra:
+            broken.append(what)
         if broken and not violations:
             rng = random.Random(seed * 7919 + 13)
-            pool = [cases[d[0]] for d in diffs[:50]]
-            extra = []
-            for c in pool:
-                for _ in range(20):
-                    extra.append((self.neighbourhood(rng, c[0]), c[1]))
-            budget = 4000 if tier == "quick" else 40000
-            more = self.judge_cases(self.cases(seed + 1000003, tier), seed + 1000003, tier)
-            extra += more[:budget]
-            searched = len(extra)
-            for i, sig in judge(prop, extra, self.judge_mode):
-                if not match_known(prop, extra[i][0], sig, known):
-                    violations.append((extra[i], sig))
+            jj = [j for j in jobs if j.judge_mode]
+            # (a) the differing inputs and their neighbourhood, judged with every oracle of the property
+            pool = [d[0].cases[d[1]] for d in diffs[:40]]
+            for j in jj:
+                cand = list(pool)
+                for c in pool:
+                    for _ in range(15):
+                        cand.append(j.mutate(rng, c))
+                searched += len(cand)
+                for i, sig in judge(prop, cand, j.judge_mode) if cand else []:
+                    if not match_known(prop, cand[i][0], sig, known):
+                        violations.append((j, cand[i], sig))
+                        break
+                if violations:
                     break
+            # (b) a fresh, larger budget
+            if not violations:
+                for j in self.jobs(seed + 1000003, "search" if tier == "quick" else tier):
+                    if not j.judge_mode or not j.cases:
+                        continue
+                    searched += len(j.cases)
+                    for i, sig in judge(prop, j.cases, j.judge_mode):
+                        if not match_known(prop, j.cases[i][0], sig, known):
+                            violations.append((j, j.cases[i], sig))
+                            break
+                    if violations:
+                        break
         # 5. outcome
         for kid, (k, c, sig) in sorted(known_hits.items()):
-            print("KNOWN-FINDING: property=%s %s (%s; e.g. input %s -> %s)" % (prop, k["what"], kid, show(c[0], 40), sig))
+            print("KNOWN-FINDING: property=%s %s (%s; e.g. input %s -> %s)" % (prop, k["what"], kid, show(c[0], 40), sig[:80]))
         rc = 0
         nviol = 0
         if violations:
-            (c, p), sig = violations[0]
-            small = shrink(prop, c, p, sig, self.judge_mode)
+            job, (c, p), sig = violations[0]
+            small = shrink(prop, c, p, sig, job.judge_mode)
             path = write_replay(prop, tier, seed, {"input_hex": small.hex(), "param": p, "signature": sig, "original_hex": c.hex(),
-                                                   "judge_mode": self.judge_mode or "judge:" + prop, "broken": broken,
+                                                   "judge_mode": job.judge_mode, "job": job.name, "broken": broken,
                                                    "input_repr": show(small, 200)})
             print("VIOLATION property=%s replay=%s" % (prop, path))
-            print("  failing input %s : %s" % (show(small), sig))
+            print("  failing input %s %s: %s" % (show(small), ("[" + p[:60] + "]") if p else "", sig[:300]))
             rc, nviol = 1, len(violations)
         elif broken:
             first = None
             if diffs:
                 d = diffs[0]
-                first = {"input_hex": cases[d[0]][0].hex(), "param": cases[d[0]][1], "impl": d[1][:2000], "model": d[2][:2000], "what": d[3] if len(d) > 3 else ""}
-            path = write_replay(prop, tier, seed, {"broken": broken, "first_difference": first, "audit_log": alog[-3000:], "searched": searched})
+                c = d[0].cases[d[1]]
+                first = {"job": d[0].name, "input_hex": c[0].hex(), "param": c[1], "impl": d[2][:3000], "model": d[3][:3000], "what": d[4] if len(d) > 4 else ""}
+            path = write_replay(prop, tier, seed, {"broken": broken, "first_difference": first, "audit_log": alog[-3000:], "searched": searched,
+                                                   "extra": [list(e) for e in extra]})
             print("VIOLATION property=%s replay=%s no-failing-input-found" % (prop, path))
             for b in broken:
-                print("  " + b[:300])
+                print("  " + b[:400])
             if first:
-                print("  first differing input %s" % show(bytes.fromhex(first["input_hex"])))
+                print("  first differing input (%s) %s %s" % (first["job"], show(bytes.fromhex(first["input_hex"])), first["param"][:60]))
             rc, nviol = 1, 1
         # 6. evidence
         nt = set()
-        for c in cases:
-            if self.nontrivial(c):
-                nt.add(c)
-        samples = [{"input": show(c[0], 120), "param": c[1]} for c in (cases[:2] + cases[len(cases) // 2:len(cases) // 2 + 2] + cases[-2:])]
+        allcases = []
+        for job in jobs:
+            for c in job.cases:
+                if job.nontrivial(c):
+                    nt.add((job.name if job.judge_mode else "", c))
+            allcases += job.cases
+        samples = []
+        for job in jobs:
+            for c in (job.cases[:1] + job.cases[len(job.cases) // 2:len(job.cases) // 2 + 1] + job.cases[-1:]):
+                samples.append({"job": job.name, "input": show(c[0], 120), "param": c[1][:120]})
         cov = {
             "obligations": n_obl, "discharged": n_obl - len(broken_obl),
             "checker_cmd": "make -C coq/<family> (coq_makefile, full .vo build) + coqc on work/audit/Audit_%s_*.v (Print Assumptions per theorem)" % prop,
             "trusted_base": TRUSTED_BASE,
             "theorems": ["%s/%s.%s" % o for o in self.obligations],
-            "evaluations": len(cases) + len(jcases) + searched, "distinct_nontrivial": len(nt),
-            "rule": self.rule if hasattr(self, "rule") else "generated documents; non-trivial = non-empty input; distinct by (bytes, parameter)",
-            "samples": samples or [{"note": "no generated cases; proof obligations only"}],
-            "correspondence": {"name": self.corr_name, "cases": len(cases), "differences": len(diffs)},
-            "judged_on_implementation": len(jcases), "judge_failures": len(fails), "known_finding_hits": sorted(known_hits),
+            "evaluations": n_cases + searched, "distinct_nontrivial": len(nt),
+            "rule": self.rule,
+            "samples": samples[:12] or [{"note": "no generated cases; proof obligations only"}],
+            "jobs": [{"name": j.name, "cases": len(j.cases), "correspondence": bool(j.corr), "oracle": j.judge_mode} for j in jobs],
+            "correspondence_differences": len(diffs),
+            "judged_on_implementation": n_judged, "judge_failures": n_fail, "known_finding_hits": sorted(known_hits),
             "search_cases_after_break": searched,
-            "input_histogram": gen.histogram([c[0] for c in cases]) if cases else {},
-            "build": {"cached": st.get("cached"), "gen_changed": st.get("gen_changed"), "coq": {f: v["missing"] for f, v in st.get("coq", {}).items() if v["missing"]}},
+            "input_histogram": gen.histogram([c[0] for c in allcases]) if allcases else {},
+            "build": {"cached": st.get("cached"), "gen_changed": st.get("gen_changed"), "coq_missing": {f: v["missing"] for f, v in st.get("coq", {}).items() if v["missing"]}},
         }
-        cov.update(self.extra_coverage())
+        cov.update(self.extra_coverage(st))
         write_evidence(prop, tier, seed, self.level, cov, self.assumptions, time.time() - t0, nviol)
         if rc == 0:
             print("OK property=%s tier=%s obligations=%d/%d cases=%d differences=0 judged=%d known=%d wall=%.1fs" %
-                  (prop, tier, n_obl - len(broken_obl), n_obl, len(cases), len(jcases), len(known_hits), time.time() - t0))
+                  (prop, tier, n_obl - len(broken_obl), n_obl, n_cases, n_judged, len(known_hits), time.time() - t0))
         return rc
 
     def replay(self, path):
@@ -311,7 +335,7 @@ class Check:
             print("replay names a broken obligation/correspondence, no input: %s" % json.dumps(r.get("broken")))
             return 1
         inp = bytes.fromhex(r["input_hex"])
-        fails = judge(self.prop, [(inp, r.get("param", ""))], r.get("judge_mode") or self.judge_mode)
+        fails = judge(self.prop, [(inp, r.get("param", ""))], r.get("judge_mode"))
         if fails:
             print("VIOLATION property=%s replay=%s" % (self.prop, path))
             print("  input %s : %s" % (show(inp), fails[0][1]))
